@@ -3,6 +3,7 @@ package bcl
 import (
 	"fmt"
 	"reflect"
+	"sort"
 	"strings"
 	"unicode"
 	"unicode/utf8"
@@ -118,8 +119,15 @@ func copyBlock(v reflect.Value, block Block) error {
 		return err
 	}
 fields:
-	for fkey, fval := range block.Fields {
-		err = setField(fkey, fval)
+	// iterate in sorted key order, so that the outcome (which error is
+	// reported first) does not depend on map iteration order
+	keys := make([]string, 0, len(block.Fields))
+	for fkey := range block.Fields {
+		keys = append(keys, fkey)
+	}
+	sort.Strings(keys)
+	for _, fkey := range keys {
+		err = setField(fkey, block.Fields[fkey])
 		if err != nil {
 			return err
 		}
